@@ -195,9 +195,12 @@ def exhaustive():
 
 # ----------------------------------------------------------------------------- output
 def parse(out):
-    """two records: ok res nrem time c0..c3 o0..o3 notonce alive nlog log*"""
+    """two records: ok res nrem time c0..c3 o0..o3 notonce alive nlog log*, then the heap-growth flag"""
     recs = []
     i = 0
+    if not out:
+        raise ValueError("empty output")
+    grew, out = out[-1], out[:-1]
     while i < len(out):
         if i + 15 > len(out):
             raise ValueError("truncated record")
@@ -211,6 +214,7 @@ def parse(out):
         i += 15 + 4 * n
     if len(recs) != 2:
         raise ValueError("expected two records, got %d" % len(recs))
+    recs[0]["grew"] = recs[1]["grew"] = grew
     return recs
 
 
@@ -220,7 +224,8 @@ CLASSES = ["module state", "processing element", "task capture", "message body"]
 def monitor(script, out):
     """C20 itself, on the implementation's counters: every user-visible value created by the simulation has been dropped exactly
     once after the simulation, the returned events and the caller's handles were dropped; nothing is alive; the second simulation
-    in the same process behaves exactly like the first."""
+    in the same process behaves exactly like the first; and nothing at all stays allocated: executing the simulation once
+    more does not make the process's live heap grow."""
     try:
         recs = parse(out)
     except ValueError as e:
@@ -234,6 +239,9 @@ def monitor(script, out):
             return "%s: %d values dropped zero times or more than once" % (who, r["notonce"])
         if r["alive"] != 0:
             return "%s: %d user-visible values are still alive after everything was dropped" % (who, r["alive"])
+    if recs[0]["grew"] != 0:
+        return ("memory stays allocated: the live heap (bytes or blocks) is larger after a third execution of the same simulation "
+                "than after the second, although every simulation, its remaining events and all handles were dropped")
     a, b = recs
     if a != b:
         for key in ("res", "nrem", "time", "created", "once", "log"):
